@@ -331,6 +331,21 @@ def is_cpp_exc(v):
     return isinstance(v, dict) and "exc" in v and "ecode" in v
 
 
+# tags (= "matcher" names of the C42 entries of known_findings.json) the driver knows how to
+# exclude by construction; see Step::known() / Step::tag() in drv/ops_capi.cpp and drv/capi_*.inc
+KNOWN_TAGS = [
+    "universalset",                      # basic_set_universalset assigns the empty set
+    "ntheory_zero_divisor",              # ntheory_mod/quotient/... with divisor 0: SIGFPE
+    "rational_set_zero_den",             # rational_set_si/ui(s, a, 0): SIGFPE
+    "lambda_visitor_init_throws",        # lambda_real_double_visitor_init lets exceptions out of extern "C"
+    "ffldu_non_square",                  # dense_matrix_FFLDU on a non-square / 0x0 matrix: out-of-bounds
+    "det_empty_matrix",                  # dense_matrix_det of a 0x0 matrix: out-of-bounds read
+    "parser_boolean_operator_downcast",  # basic_parse2(.., convert_xor<=0) with ^ | & ~ on non-booleans
+    # ("gamma_half_integer_int_overflow", int overflow in gamma_multiple_2 from gamma(23/2) on, is
+    #  fixed in the library (34b184b): regression replay replays/fixed/C42-gamma-...json; the driver
+    #  still understands the tag but nothing activates it)
+]
+
 MUTATORS = {"vecbasic_push_back", "vecbasic_set", "vecbasic_erase", "basic_get_args", "setbasic_insert",
             "setbasic_erase", "basic_free_symbols", "basic_function_symbols", "basic_solve_poly",
             "mapbasicbasic_insert", "vectorint_push_back"}
@@ -357,7 +372,7 @@ class C42(Check):
         "a step whose C++ side trips a SYMENGINE_ASSERT is not judged (reported by C03)",
         "container keys containing a NaN double are not model-checked (no strict weak order)",
     ]
-    tiers = {"quick": {"examples": 5000, "shrink_calls": 400}, "thorough": {"examples": 150000, "shrink_calls": 800}}
+    tiers = {"quick": {"examples": 4000, "shrink_calls": 400}, "thorough": {"examples": 120000, "shrink_calls": 800}}
     timeout = 60.0
     case_timeout = 25
 
@@ -379,9 +394,12 @@ class C42(Check):
 
     # -------------------------------------------------------------- judge
     def judge(self, case):
-        raw = bool(case.get("raw", False))
+        # known findings (pbt/GUIDE.md, "Known findings protocol"): the driver excludes a recorded
+        # defect by construction iff its tag is active; it answers Decline("known:<tag>"), which
+        # judge_step counts as skip("known:<tag>").  With no tag active everything is executed.
+        tags = ",".join(t for t in KNOWN_TAGS if self.tag_active(t))
         steps = (PRELUDE if not case.get("noprelude") else []) + [list(s) for s in case["steps"]]
-        stmts = [["capi_env", raw]]
+        stmts = [["capi_env", tags]]
         for fn, iv, s, d in steps:
             stmts.append(["capi", R(0), fn, ",".join(str(int(v)) for v in iv), s, float(d)])
         res = self.run(stmts)
